@@ -29,9 +29,16 @@ THEOREMS = [
     "TornadoModel.C02.response_wellframed_refuted",
     "TornadoModel.C02.nobody_wire_is_head",
     "TornadoModel.C02.body_is_writes",
+    "TornadoModel.C02.fmtChunk_out",
+    "TornadoModel.C02.headers_precede_first_chunk",
+    "TornadoModel.C02.rle_roundtrip",
+    "TornadoModel.C02.rep_length",
 ]
 TRUSTED = [
     "the reading of 'a strict HTTP/1.1 client' into Spec.clientParse (C02/Spec.lean, ~150 lines)",
+    "large payloads (chunks >= 8 KiB) travel between harness and driver as descriptors (x.. | [rep,pat,n] | [cat,..]); "
+    "the receiver always expands them to the full byte string before comparing (Lean: Rle.cyc/expand, rle_roundtrip; "
+    "Python: from_desc/wire_bytes), so comparisons stay byte-exact",
     "fake transport + virtual loop (writes complete immediately; the response path does not depend on write timing)",
 ]
 ASSUMPTIONS = [
@@ -44,11 +51,14 @@ ASSUMPTIONS = [
 ]
 RULE = ("handler programs of <= 8 ops (status/set/add/clear header, write, flush, finish) over chunk sizes "
         "{0,1,15,16,255,256,1023,1024,4096,...} x request shapes (GET/HEAD/POST x HTTP/1.0/1.1 x Connection x If-None-Match); "
+        "plus a systematic family of programs with LARGE chunks (8 KiB..300 KiB, dense at 65535/65536/65537 and at sums of "
+        "buffered writes crossing 64 KiB) placed before the first flush / after it / in finish() / with explicit Content-Length; "
         "non-trivial = the program writes data and flushes or writes twice, or hits an error/abort path; distinct by canonical JSON")
 EXHAUSTIVE = {"quick": False, "thorough": False}
 CLAUSES = {
     "exactly one response that a strict client delimits unambiguously, with the final status/headers and the chunks written":
-        "response_wellframed_exact (every request shape, every program under the decidable side conditions reqOK/opOK: "
+        "headers_precede_first_chunk + fmtChunk_out (write_headers emits ONE write = head ++ coded first chunk for every chunk "
+        "size; _format_chunk itself never writes) + response_wellframed_exact (every request shape, every program under the decidable side conditions reqOK/opOK: "
         "Spec.clientParse on the model's wire bytes = exactly one response, nothing left over, status/reason/header lines "
         "= what write_headers serialised, body = concatenation of the chunks accepted by the connection, delimited by "
         "no-body/chunked/Content-Length/close; otherwise truncated AND closed, only when the handler's own Content-Length "
@@ -73,6 +83,12 @@ ERROR_PAGE = (b"<html><title>500: Internal Server Error</title>"
 PATTERNS = [b"a", b"xyz", b"\r\n", b"0\r\n\r\n", b"\x00\xff\x80", b"HTTP/1.1 200 OK\r\nContent-Length: 0\r\n\r\n",
             b"5\r\nhello\r\n", b"\n", b"\r", b"1\r\n"]
 SIZES = [0, 1, 2, 15, 16, 17, 255, 256, 257, 1023, 1024, 1025, 4095, 4096, 4097]
+# large chunks: sent to the driver as descriptors (see `to_desc`), single-byte patterns so that replies compress
+BIG_MIN = 8192
+EDGE_SIZES = [65535, 65536, 65537]                               # 64 KiB: the boundary a zero-copy path would pick
+MID_SIZES = [8191, 8192, 8193, 16383, 16384, 16385, 32767, 32768, 32769, 65534]
+HUGE_SIZES = [131071, 131072, 131073, 200000, 262144, 300000]
+BIG_PATS = ["41", "42", "0d", "0a", "30", "00", "ff"]
 STATUSES = [200, 200, 200, 200, 201, 204, 304, 404, 500, 101, 100, 599]
 H_NAMES = ["Content-Type", "content-type", "X-Foo", "x-foo", "X-FOO", "Etag", "Content-Encoding", "Content-Language",
            "Vary", "Cache-Control", "X-Multi"]
@@ -176,6 +192,102 @@ def _enum(maxlen, reqs):
                 yield {"req": dict(rq), "prog": [list(o) for o in seq], "enum": True}
 
 
+BIG_REQS = SMALL_REQS + [
+    {"method": "GET", "v11": True, "conn": "close", "inm": "none"},
+    {"method": "POST", "v11": True, "conn": "keep-alive", "inm": "none"},
+    {"method": "HEAD", "v11": False, "conn": "keep-alive", "inm": "hit"},
+    {"method": "GET", "v11": True, "conn": None, "inm": "miss"},
+]
+
+
+def _big_templates(A, B, pa="41", pb="42"):
+    """programs around one large size A (B = a second large size): the large chunk in the first flush, in a later
+    flush, in finish(), split over several buffered writes, with explicit Content-Length (right / short / long),
+    on body-less statuses, after an error"""
+    a, b, s = [pa, A], [pb, B], ["78797a", 20]
+    h1, h2 = [pa, A // 2], [pb, A - A // 2]
+    return [
+        [["write", a], ["flush"]],
+        [["write", a], ["flush"], ["write", s]],
+        [["write", a], ["flush"], ["write", b], ["flush"], ["finish", s]],
+        [["write", s], ["flush"], ["write", a]],
+        [["flush"], ["write", a], ["flush"], ["write", a]],
+        [["write", a]],
+        [["finish", a]],
+        [["write", s], ["finish", a]],
+        [["write", h1], ["write", h2], ["flush"], ["write", s]],              # the sum reaches A, no single write does
+        [["write", [pa, A - 1]], ["write", ["43", 1]], ["flush"]],
+        [["write", [pa, 1]], ["write", [pb, A - 1]], ["flush"], ["finish", None]],
+        [["write", a], ["write", ["61", 0]], ["flush"], ["write", ["61", 0]], ["flush"]],
+        [["set", "Content-Length", str(A)], ["write", a], ["flush"]],
+        [["set", "Content-Length", str(A + 20)], ["write", a], ["flush"], ["write", s]],
+        [["set", "Content-Length", str(A - 1)], ["write", a], ["flush"]],    # over-long first chunk: aborted
+        [["set", "Content-Length", str(A + 1)], ["write", a], ["flush"]],    # short body: closed at finish
+        [["set", "Content-Length", str(A)], ["write", s], ["flush"], ["write", a]],
+        [["status", 404], ["write", a], ["flush"], ["write", b]],
+        [["status", 204], ["write", a], ["flush"]],
+        [["status", 304], ["flush"], ["write", a]],
+        [["write", a], ["flush"], ["set", "X-Foo", "a\nb"]],
+        [["write", a], ["set", "X-Foo", "a\nb"]],
+        [["write", a], ["flush"], ["finish", b], ["write", s]],
+    ]
+
+
+def _with_big(rng, sizes):
+    """a random program in which one or two data-carrying ops (or freshly inserted writes) carry a large chunk"""
+    prog = [list(o) for o in _rand_prog(rng, 6)]
+    for _ in range(rng.choice([1, 1, 2])):
+        n = rng.choice(sizes) if rng.random() < 0.8 else rng.randint(BIG_MIN, 140000)
+        big = [rng.choice(BIG_PATS), n]
+        slots = [i for i, o in enumerate(prog) if o[0] in ("write", "finish") and o[1] is not None]
+        if slots and rng.random() < 0.5:
+            i = rng.choice(slots)
+            prog[i] = [prog[i][0], big]
+        else:
+            i = rng.randint(0, len(prog))
+            prog[i:i] = [["write", big]] + ([["flush"]] if rng.random() < 0.6 else [])
+    # an explicit Content-Length set earlier refers to the old total: recompute (right / off by one) or drop
+    total = len(body_of(prog))
+    for i, o in enumerate(prog):
+        if o[0] == "set" and o[1].lower() == "content-length":
+            prog[i] = ["set", o[1], str(rng.choice([total, total, max(0, total - 1), total + 1]))]
+    return prog
+
+
+def _big_cases(rng, tier):
+    if tier == "search":
+        sizes = EDGE_SIZES + MID_SIZES + HUGE_SIZES[:3]
+        for _ in range(40):
+            yield {"req": _rand_req(rng), "prog": _with_big(rng, sizes), "big": True}
+        return
+    thorough = tier == "thorough"
+    # (1) every template at the 64 KiB boundary on the plain HTTP/1.1 GET, and on every other request shape for
+    #     the boundary value itself (quick: a seeded sample of the other shapes)
+    for A in EDGE_SIZES:
+        for prog in _big_templates(A, 65536 + 7):
+            yield {"req": dict(BIG_REQS[0]), "prog": prog, "big": True}
+    for rq in BIG_REQS[1:]:
+        for A in (EDGE_SIZES if thorough else [65536]):
+            progs = _big_templates(A, 65536)
+            for prog in (progs if thorough else rng.sample(progs, 4)):
+                yield {"req": dict(rq), "prog": prog, "big": True}
+    # (2) the same templates at the other sizes (quick: a seeded sample)
+    for A in MID_SIZES + HUGE_SIZES:
+        progs = _big_templates(A, rng.choice(EDGE_SIZES + MID_SIZES), rng.choice(BIG_PATS), rng.choice(BIG_PATS))
+        for prog in (progs if thorough else rng.sample(progs, 2)):
+            yield {"req": dict(rng.choice(BIG_REQS[:3]) if rng.random() < 0.7 else _rand_req(rng)), "prog": prog, "big": True}
+    # (3) random programs with large chunks mixed in
+    sizes = EDGE_SIZES * 3 + MID_SIZES + HUGE_SIZES
+    for _ in range(400 if thorough else 30):
+        prog = _with_big(rng, sizes)
+        for _ in range(2):
+            yield {"req": _rand_req(rng), "prog": prog, "big": True}
+    # (4) a few multi-byte patterns (travel literally: slow, so only moderately large)
+    for A in ([8192, 16384, 65536, 65537] if thorough else [8192]):
+        for prog in _big_templates(A, 9000, "78797a", "0d0a30")[:5]:
+            yield {"req": dict(BIG_REQS[0]), "prog": prog, "big": True}
+
+
 def gen_cases(rng, tier, compress=False):
     n_prog = {"quick": 1000, "thorough": 12000, "search": 1500}[tier]
     if tier == "quick":
@@ -183,6 +295,7 @@ def gen_cases(rng, tier, compress=False):
         yield from _enum(3, SMALL_REQS[:2])
     elif tier == "thorough":
         yield from _enum(4, SMALL_REQS)
+    yield from _big_cases(rng, tier)
     for _ in range(n_prog):
         prog = _rand_prog(rng)
         for _ in range(5):
@@ -288,9 +401,59 @@ def serve(case, compress=False, extra_headers=(), tape=None):
         return bytes(s.written), bool(s.closed())
 
 
+def is_big(case):
+    return any(o[0] in ("write", "finish") and o[1] is not None and o[1][1] >= BIG_MIN for o in case["prog"])
+
+
+_RUN = re.compile(rb"(.)\1{63,}", re.S)
+
+
+def pack(b):
+    """JSON form of a byte string: hex, or (>= BIG_MIN bytes) a list of hex literals and [hexbyte, n] runs.
+    Canonical (a function of the bytes alone), so two packed values are equal iff the byte strings are."""
+    if len(b) < BIG_MIN:
+        return b.hex()
+    out, pos = [], 0
+    for m in _RUN.finditer(b):
+        if m.start() > pos:
+            out.append(b[pos:m.start()].hex())
+        out.append([m.group(1).hex(), m.end() - m.start()])
+        pos = m.end()
+    if pos < len(b):
+        out.append(b[pos:].hex())
+    return out
+
+
+def unpack(w):
+    if isinstance(w, str):
+        return bytes.fromhex(w)
+    return b"".join(bytes.fromhex(x) if isinstance(x, str) else bytes.fromhex(x[0]) * x[1] for x in w)
+
+
+def wire_bytes(impl):
+    return unpack(impl["wire"])
+
+
+def to_desc(w):
+    """packed value -> driver argument (`Rle` descriptor, expanded by the driver)"""
+    if isinstance(w, str):
+        return bytes.fromhex(w)
+    return [atom("cat")] + [bytes.fromhex(x) if isinstance(x, str) else [atom("rep"), bytes.fromhex(x[0]), x[1]] for x in w]
+
+
+def from_desc(v):
+    """driver reply value (bytes | [rep,pat,n] | [cat,…]) -> the full byte string"""
+    if isinstance(v, (bytes, bytearray)):
+        return bytes(v)
+    if v and v[0] == "rep":
+        return chunk_bytes([bytes(v[1]).hex(), v[2]])
+    assert v and v[0] == "cat", v
+    return b"".join(from_desc(x) for x in v[1:])
+
+
 def run_impl(case):
     wire, closed = serve(case)
-    return {"wire": normalise(wire).hex(), "closed": closed}
+    return {"wire": pack(normalise(wire)), "closed": closed}
 
 
 # ------------------------------------------------------------------------------------------- model
@@ -301,14 +464,19 @@ def enc_req(case):
     return [atom(rq["method"].lower()), atom(bool(rq["v11"])), atom(conn), atom(inm_match(case))]
 
 
-def enc_prog(prog):
+def enc_prog(prog, z=False):
+    """z: chunks of >= 256 bytes as `[rep,pat,n]` descriptors (driver op `runz`)"""
+    def ch(c):
+        if z and c[1] >= 256 and c[0]:
+            return [atom("rep"), bytes.fromhex(c[0]), c[1]]
+        return chunk_bytes(c)
     out = []
     for o in prog:
         k = o[0]
         if k in ("write",):
-            out.append([atom(k), chunk_bytes(o[1])])
+            out.append([atom(k), ch(o[1])])
         elif k == "finish":
-            out.append([atom(k), None if o[1] is None else chunk_bytes(o[1])])
+            out.append([atom(k), None if o[1] is None else ch(o[1])])
         elif k == "status":
             out.append([atom(k), o[1]])
         else:
@@ -319,13 +487,15 @@ def enc_prog(prog):
 def model_requests(case, impl):
     if "harness_exc" in impl:
         return []
+    if is_big(case):
+        return [line(ID, "runz", enc_req(case), enc_prog(case["prog"], z=True))]
     return [line(ID, "run", enc_req(case), enc_prog(case["prog"]))]
 
 
 def model_result(case, replies):
     st, vals = parse_reply(replies[0])
     assert st == "ok", replies[0]
-    return {"wire": vals[0].hex(), "closed": str(vals[1]) == "T"}
+    return {"wire": pack(from_desc(vals[0])), "closed": str(vals[1]) == "T"}
 
 
 def impl_view(case, impl):
@@ -336,7 +506,9 @@ def impl_view(case, impl):
 def spec_requests(case, impl):
     if "harness_exc" in impl:
         return []
-    return [line(ID, "parse", atom(case["req"]["method"] == "HEAD"), bytes.fromhex(impl["wire"]), atom(bool(impl["closed"])))]
+    if is_big(case):
+        return [line(ID, "parsez", atom(case["req"]["method"] == "HEAD"), to_desc(impl["wire"]), atom(bool(impl["closed"])))]
+    return [line(ID, "parse", atom(case["req"]["method"] == "HEAD"), wire_bytes(impl), atom(bool(impl["closed"])))]
 
 
 def parse_spec(reply):
@@ -346,7 +518,7 @@ def parse_spec(reply):
     if kind != "response":
         return {"kind": kind}
     return {"kind": "response", "status": vals[1], "reason": vals[2], "headers": [(bytes(n), bytes(v)) for n, v in vals[3]],
-            "body": bytes(vals[4]), "delim": str(vals[5]), "rest": bytes(vals[6])}
+            "body": from_desc(vals[4]), "delim": str(vals[5]), "rest": from_desc(vals[6])}
 
 
 _VALID = re.compile(r"[\x09\x20-\x7e\x80-\xff]*\Z")
@@ -454,13 +626,13 @@ def spec_violation(case, impl, replies, vary_ok=None, decode=None):
 def nontrivial(case, impl):
     ops = [o[0] for o in case["prog"]]
     data = sum(1 for o in case["prog"] if o[0] in ("write", "finish") and o[1] is not None and o[1][1] > 0)
-    return (data >= 1 and ("flush" in ops or data >= 2)) or bytes.fromhex(impl["wire"]).startswith(b"HTTP/1.1 500") \
+    return (data >= 1 and ("flush" in ops or data >= 2)) or wire_bytes(impl).startswith(b"HTTP/1.1 500") \
         or not impl["wire"]
 
 
 def stats(case, impl):
     rq = case["req"]
-    w = bytes.fromhex(impl["wire"])
+    w = wire_bytes(impl)
     head = w.split(b"\r\n\r\n", 1)[0]
     out = ["method:" + rq["method"], "version:" + ("1.1" if rq["v11"] else "1.0"), "conn:" + str(rq["conn"]).lower(),
            "inm:" + rq.get("inm", "none"), "ops:%d" % len(case["prog"]), "closed:%s" % impl["closed"]]
@@ -476,7 +648,19 @@ def stats(case, impl):
     for o in case["prog"]:
         out.append("op:" + o[0])
         if o[0] in ("write", "finish") and o[1] is not None:
-            out.append("chunk:%d" % o[1][1] if o[1][1] in SIZES else "chunk:other")
+            n = o[1][1]
+            out.append("chunk:%d" % n if n in SIZES or n in EDGE_SIZES else
+                       "chunk:other" if n < BIG_MIN else "chunk:8K..64K" if n < 65535 else "chunk:>64K")
+    if is_big(case):
+        first = 0       # bytes buffered when the headers go out with the first flush
+        for o in case["prog"]:
+            if o[0] == "write":
+                first += o[1][1]
+            elif o[0] == "flush":
+                out.append("first-flush:" + ("<64K" if first < 65536 else "=64K" if first == 65536 else ">64K"))
+                break
+            elif o[0] == "finish":
+                break
     return out
 
 
@@ -501,7 +685,13 @@ def shrink(case):
         yield {**case, "prog": prog[:i] + prog[i + 1:]}
     for i, o in enumerate(prog):
         if o[0] in ("write", "finish") and o[1] is not None and o[1][1] > 1:
-            for n in (1, o[1][1] // 2):
+            m = o[1][1]
+            cands = [1, m // 2]
+            if m > 4096:        # large chunks: also towards the nearest power of two and one step down
+                p2 = 1 << (m.bit_length() - 1)
+                cands += [p2] if p2 != m else []
+                cands += [m - 1]
+            for n in cands:
                 yield {**case, "prog": prog[:i] + [[o[0], [o[1][0], n]]] + prog[i + 1:]}
     rq = case["req"]
     if rq.get("inm", "none") != "none":
